@@ -21,6 +21,10 @@ Oracle commands for the model of wazevo's front end on straight-line integer cod
       1 / 0: the second is accepted by the verified checker `dceOK` as a dead-code elimination of the first (same
       parameters; only instructions of side-effect class none deleted; no kept instruction uses a deleted result)
 
+  c01frontmem optok <one-block function> | <one-block function>
+      1 / 0: the second is accepted by the verified checker `optValid` as the result of no-op-shift elimination, alias
+      resolution and dead-code elimination on the first
+
 Context arguments: exec_ctx = 0xec, module_ctx = 0x3c00; linear memory at base = 0x100000000000.
 <memlen>: hex number of bytes; <init>: `-` or comma separated `<addr hex>=<byte hex>`.
 Body tokens: those of `c01front` plus `i32.load:<off hex> i64.load:… i32.load8_s:… i32.load8_u:… i32.load16_s:…
@@ -166,6 +170,12 @@ def step (st : St) (args : List String) : St × String :=
     let b := (toks.dropWhile (· != "|")).drop 1
     match parseMFunc a, parseMFunc b with
     | some g, some g' => (st, b2s (g.params == g'.params && dceOK [] g.instrs g'.instrs))
+    | _, _ => (st, "bad-op")
+  | "optok" :: toks =>
+    let a := toks.takeWhile (· != "|")
+    let b := (toks.dropWhile (· != "|")).drop 1
+    match parseMFunc a, parseMFunc b with
+    | some g, some g' => (st, b2s (optValid g g'))
     | _, _ => (st, "bad-op")
   | _ => (st, "bad-op")
 
